@@ -382,6 +382,7 @@ func areaCff(c *Ctx) {
 	c13GenRound7(c)
 	c13GenAngles(c)
 	c13GenEmptyElements(c)
+	c13GenMatrixTranslation(c)
 }
 
 // mutate returns a damaged copy of data (truncation, bit flip, byte overwrite, count inflation).
@@ -3475,5 +3476,52 @@ func c13GenEmptyElements(c *Ctx) {
 		f.widths = []float64{500, 600, 500, 700}
 		f.fds = make([]int, 4)
 		emit(f, fmt.Sprintf("empty glyph name at %d", at))
+	}
+}
+
+// ---------------------------------------------------------------------------------------
+// round 10: font matrices that equal the applicable default in the linear part only, or in all but one
+// linear entry (the key may be dropped only if all six entries are the default)
+
+func c13GenMatrixTranslation(c *Ctx) {
+	r := c.Rng
+	plain := func(nFD int) *c13Font {
+		f := c13SweepFont(r, [5]int{4, 2, 0, 0, 0}, nFD, 2)
+		for p := range f.privs {
+			f.privs[p] = c13Priv{bs: 7, bf: 1, bscale: 0.039625}
+		}
+		return f
+	}
+	trans := []float64{0.25, -0.125, 0.5, 0.0625, 1e-4, 100, -3, 0.001}
+	variants := func(d float64) [][6]float64 {
+		var out [][6]float64
+		for _, t := range trans {
+			out = append(out, [6]float64{d, 0, 0, d, t, 0}, [6]float64{d, 0, 0, d, 0, t})
+		}
+		out = append(out, [6]float64{d, 0, 0, d, 0.5, -0.25},
+			[6]float64{d * 2, 0, 0, d, 0, 0}, [6]float64{d, 0.25, 0, d, 0, 0}, [6]float64{d, 0, -0.125, d, 0, 0}, [6]float64{d, 0, 0, d / 2, 0, 0})
+		return out
+	}
+	emit := func(f *c13Font, label string) {
+		c.Stat("matrix_translation", label)
+		c13EmitFont(c, f, r.Chance(1, 2))
+	}
+	for i, m := range variants(0.001) {
+		f := plain(0)
+		f.fm = m
+		emit(f, "simple font, top DICT")
+		if c.Tier == "thorough" || i%2 == 0 {
+			f = plain(2)
+			f.fms[i%2] = m
+			emit(f, "Font DICT")
+		}
+	}
+	for i, m := range variants(1) {
+		if c.Tier != "thorough" && i%3 == 2 {
+			continue
+		}
+		f := plain(1 + i%2)
+		f.fm = m
+		emit(f, "CID-keyed font, top DICT")
 	}
 }
